@@ -313,3 +313,5 @@ def run(ctx):
     rule_resolution(ctx, r5)
     r6 = ctx.rule("R6", "log cleaning removes only logs of targets that left the workflow, never when switched off or on a dry run", min_instances=3)
     rule_log_cleaning(ctx, r6)
+    from .shared import rule_config_switch
+    rule_config_switch(ctx, r6, "clean_logs", "`gwf run` decides whether to clean logs (config.get('clean_logs'))")
